@@ -66,6 +66,23 @@ func (c *c19) Cases(tier string, seed int64) []core.Case {
 			}
 		}
 	}
+	// The field grids of the first set once more in the GOARCH=386 build of the
+	// worker: counts and lengths that are converted to a 32-bit int there.
+	{
+		sd := core.Rng("C19-386", tier, seed).Int63()
+		for _, fam := range []string{"fields", "fields-rederive"} {
+			for pt := 0; pt < parts; pt++ {
+				cc := core.MkCase(fmt.Sprintf("386:par2-%s-intact-%d", fam, pt), c19Params{sd, "par2", fam, "intact", pt, parts})
+				cc.Arch386 = true
+				cs = append(cs, cc)
+			}
+			for pt := 0; pt < 2; pt++ {
+				cc := core.MkCase(fmt.Sprintf("386:par1-%s-one-missing-%d", fam, pt), c19Params{sd, "par1", fam, "one-missing", pt, 2})
+				cc.Arch386 = true
+				cs = append(cs, cc)
+			}
+		}
+	}
 	return cs
 }
 
